@@ -260,6 +260,9 @@ DIRECTED = [
     "handlers = [lambda *args, **kwargs: (args, kwargs), lambda first, second, /: first + second, lambda value, *rest, flag=None: (value, rest, flag)]\n",
     "def f():\n    from django.db.models import Q\n    from re import I, M\n    alpha=beta=gamma=delta=epsilon=zeta=eta=theta=iota=kappa=lam=mu=nu=xi=omicron=pi=rho=sigma=1\n    return [alpha,beta,gamma,delta,epsilon,zeta,eta,theta,iota,kappa,lam,mu,nu,xi,omicron,pi,rho,sigma,Q,I,M,alpha,beta,gamma,delta,epsilon,zeta,eta,theta,iota,kappa,lam,mu,nu,xi,omicron,pi,rho,sigma]\n",
     "x = 1\ndef f(x):\n    class C:\n        x = x\n    return C.x\nprint(f(10))\n",
+    'def f():\n    size: int\n    def g():\n        nonlocal size\n        size = 1\n    g()\n    return [size for size in (size,)]\nprint(f())\n',
+    'def f():\n    size: int\n    class C:\n        size = 0\n    def g():\n        nonlocal size\n        size = 2\n    g()\n    return size, C.size\nprint(f())\n',
+    'def f():\n    total: int\n    count: int = 0\n    def g():\n        nonlocal total, count\n        total = 5\n        count += 1\n    g()\n    return total, count\nprint(f())\n',
     'A = 1\nbbb = 2\nB = 5\ndef f():\n    global A, bbb, B\n    bbb = bbb+bbb+bbb+bbb\n    A = 3\n    B = A + bbb\nf()\nprint(A, bbb, B)\n',
     'def o():\n    A = 1\n    bbb = 2\n    B = 0\n    def f():\n        nonlocal A, bbb, B\n        bbb = bbb+bbb+bbb+bbb\n        A = 3\n        B = A\n    f()\n    return A, bbb, B\nprint(o())\n',
     'C = 1\nlong_counter_name = 2\ndef g():\n    global long_counter_name, C\n    long_counter_name += long_counter_name + long_counter_name\n    C += 1\n    return long_counter_name, C\nprint(g())\n',
